@@ -153,3 +153,12 @@ pub open spec fn accepted_with(ctx: &ReportContext, out: Seq<Posting>, posts: Se
 pub open spec fn accepted(ctx: &ReportContext, out: Seq<Posting>, posts: Seq<Tracked<syntax::tracked::Posting>>) -> bool {
     exists|d: Seq<PostingAmount>| #[trigger] accepted_with(ctx, out, posts, d)
 }
+
+/// C01: the precision a `commodity` directive declares: that of its last `format` line (None: it has none)
+pub open spec fn declared_scale(details: Seq<CommodityDetail>, n: int) -> Option<u32>
+    decreases n
+{
+    if n <= 0 { None } else {
+        match details[n - 1] { CommodityDetail::Format(f) => Some(fmt_scale(f.value)), _ => declared_scale(details, n - 1) }
+    }
+}
